@@ -56,6 +56,137 @@ static std::string fin(const Out& o, const std::string& aft)
     return "seen=" + (o.seen.empty() ? std::string("_") : o.seen) + " after=" + aft;
 }
 
+// A range whose iterator fails once: the increment that would leave position `at` throws (before moving) the
+// first time it is tried; the loop catches that and tries the same increment again.
+struct Hiccup
+{
+};
+struct HiccupRange
+{
+    std::vector<int>* v;
+    std::size_t at;
+    bool* thrown;
+    struct iterator
+    {
+        std::vector<int>* v;
+        std::size_t i;
+        std::size_t at;
+        bool* thrown;
+        int& operator*() const
+        {
+            return (*v)[i];
+        }
+        iterator& operator++()
+        {
+            if (i == at && !*thrown)
+            {
+                *thrown = true;
+                throw Hiccup();
+            }
+            ++i;
+            return *this;
+        }
+        bool operator!=(const iterator& o) const
+        {
+            return i != o.i;
+        }
+        bool operator==(const iterator& o) const
+        {
+            return i == o.i;
+        }
+    };
+    iterator begin() const
+    {
+        return iterator{ v, 0, at, thrown };
+    }
+    iterator end() const
+    {
+        return iterator{ v, v->size(), at, thrown };
+    }
+};
+
+static std::string run_hiccup(std::vector<int> c, const std::string& orig)
+{
+    bool thrown = false;
+    HiccupRange r{ &c, c.size() / 2, &thrown };
+    Out o;
+    auto e = nitro::lang::enumerate(r);
+    auto it = e.begin();
+    auto end = e.end();
+    while (it != end)
+    {
+        auto p = *it;
+        o.add(p.index(), p.value(), true);
+        try
+        {
+            ++it;
+        }
+        catch (Hiccup&)
+        {
+            ++it; // the step that failed is tried again
+        }
+    }
+    (void)orig;
+    return fin(o, after(c));
+}
+
+// A lazy range of <n> elements, element k being k: every visit has to pair index k with value k.
+struct CountRange
+{
+    unsigned long long n;
+    struct iterator
+    {
+        unsigned long long k;
+        unsigned long long operator*() const
+        {
+            return k;
+        }
+        iterator& operator++()
+        {
+            ++k;
+            return *this;
+        }
+        bool operator!=(const iterator& o) const
+        {
+            return k != o.k;
+        }
+    };
+    iterator begin() const
+    {
+        return { 0 };
+    }
+    iterator end() const
+    {
+        return { n };
+    }
+};
+
+static std::string run_big(unsigned long long n, bool rvalue)
+{
+    unsigned long long visited = 0, bad = 0, first_bad = 0;
+    auto body = [&](auto&& p) {
+        if (p.index() != p.value() || p.value() != visited)
+        {
+            if (bad == 0)
+                first_bad = visited;
+            ++bad;
+        }
+        ++visited;
+    };
+    if (rvalue)
+    {
+        for (auto p : nitro::lang::enumerate(CountRange{ n }))
+            body(p);
+    }
+    else
+    {
+        CountRange r{ n };
+        for (auto p : nitro::lang::enumerate(r))
+            body(p);
+    }
+    return "visited=" + std::to_string(visited) + " firstbad=" + (bad ? std::to_string(first_bad) : std::string("_"));
+}
+
 // For lvalue ranges (const or not) the visited values are the container's own elements: same addresses,
 // in iteration order (reversed for reverse()).
 struct Alias
@@ -358,7 +489,11 @@ static std::string handle(const std::vector<std::string>& f)
 {
     const std::string &ad = f.at(0), &kind = f.at(1), &cat = f.at(2);
     bool write = f.at(3) == "1";
+    if (ad == "ebig")
+        return run_big(std::stoull(f.at(4)), cat == "rv");
     auto v = vals(f.at(4));
+    if (kind == "thr")
+        return run_hiccup(v, f.at(4));
     std::string orig = f.at(4);
     if (kind == "vec")
     {
@@ -449,5 +584,9 @@ static std::string handle(const std::vector<std::string>& f)
 
 int main()
 {
+#ifdef NV_FAST
+    return nv::main_loop(handle, 120);
+#else
     return nv::main_loop(handle, 5);
+#endif
 }
